@@ -321,6 +321,11 @@ def fixed_corpus():
     # a pattern that needs a terminator after a run over a class open at the top (or bottom): a truncated run is one error
     out.append(Def([L('regex', '(?-u)[\\x80-\\xff]*[\\x00-\\x7f]'), ], utf8=False, origin='fixed:bytes-varint'))
     out.append(Def([L('regex', '(?-u)[\\x00-\\x20]*[\\x41-\\x5a]'), L('regex', '(?-u)[^"]*"', prio=1)], utf8=False, origin='fixed:bytes-openrange'))
+    # the same with callbacks on the token the skip passes through (a stale context would run the callback again), the skip
+    # ending in a loop; once as a plain skip, once as a pattern whose callback returns Skip (C13: the two are interchangeable)
+    out.append(Def([L('token', '\\', cb=2), L('skip', '\\\\\\n[ \\t]*'), L('regex', '[a-z]+', cb=11, value=True), L('skip', ' ')], origin='fixed:skip-extends-cb-token'))
+    out.append(Def([L('token', '\\', cb=2), L('regex', '\\\\\\n[ \\t]*', cb=3), L('regex', '[a-z]+', cb=11, value=True), L('skip', ' ')], origin='fixed:skip-extends-cb-token2'))
+    out.append(Def([L('token', '-', cb=9), L('skip', '--[a-z]*'), L('regex', '[0-9]+', cb=1), L('skip', ' +')], origin='fixed:skip-extends-cb-token3'))
     # long literals that share nothing with the other patterns (chains of single-byte, single-edge states longer than a chunk)
     out.append(Def([L('token', '<!DOCTYPE html>'), L('token', '<!--'), L('regex', '[a-z]+'), L('token', 'synchronized_block'), L('skip', ' ')], origin='fixed:long-literals'))
     # an ASCII word boundary after a fixed tail, nothing else alive in that state: its outgoing classes reach 0x00 and 0xff and
